@@ -72,147 +72,6 @@ theorem sameId_eq {h : Heap} (hi : IdInv h) {a b : Addr} (e : sameId h a b = tru
 theorem set_self {h : Heap} {a : Addr} {o : Obj} : (h.set a o) a = some o := by
   simp [Heap.set]
 
-/-- the `subst_bound` of the code, with its cache and `_id` short cuts, computes `substBoundAt` -/
-theorem sbHeap_sound (ua : Addr) (tu : Term) (hcl : Term.isOpenAt 0 tu = false) :
-    ∀ (fuel : Nat) (h : Heap) (c : Cache) (as : List Addr) (s : Addr) (n : Nat) (ts : Term)
-      (res : Heap × Cache × List Addr × Addr),
-      IdInv h → Repr h ua tu → CacheOK tu h c → Repr h s ts →
-      sbHeap true ua fuel h c as s n = some res →
-      IdInv res.1 ∧ Ext h res.1 ∧ CacheOK tu res.1 res.2.1 ∧
-        Repr res.1 res.2.2.2 (Term.substBoundAt tu n ts)
-  | 0, _, _, _, _, _, _, _, _, _, _, _, e => by simp [sbHeap] at e
-  | fuel + 1, h, c, as, s, n, ts, res, hi, ru, hc, rs, e => by
-    unfold sbHeap at e
-    obtain ⟨o, ho⟩ := rs.live
-    simp only [ho] at e
-    cases rs with
-    | svar e1 =>
-      rw [ho] at e1; cases e1
-      simp only [Option.some.injEq] at e; subst e
-      exact ⟨hi, Ext.refl h, hc, .svar ho⟩
-    | var e1 =>
-      rw [ho] at e1; cases e1
-      simp only [Option.some.injEq] at e; subst e
-      exact ⟨hi, Ext.refl h, hc, .var ho⟩
-    | const e1 =>
-      rw [ho] at e1; cases e1
-      simp only [Option.some.injEq] at e; subst e
-      exact ⟨hi, Ext.refl h, hc, .const ho⟩
-    | @bound _ _ i e1 =>
-      rw [ho] at e1; cases e1
-      simp only at e
-      split at e
-      · rename_i hin
-        simp only [Option.some.injEq] at e; subst e
-        subst hin
-        refine ⟨hi, Ext.refl h, hc, ?_⟩
-        simp only [Term.substBoundAt, beq_self_eq_true, if_true, Term.incrBoundvars]
-        rw [Term.incrAt_closed i 0 tu hcl]
-        exact ru
-      · rename_i hne
-        split at e
-        · rename_i hgt
-          obtain ⟨rest, _, hc', ea⟩ := allocNext_spec e
-          obtain ⟨hf, hset⟩ := alloc_spec ea
-          have hx := alloc_ext ea
-          refine ⟨alloc_inv hi ea, hx, by rw [hc']; exact hc.ext hx, ?_⟩
-          have h1 : (i == n) = false := by simpa using hne
-          simp only [Term.substBoundAt, h1, hgt, if_true]
-          refine .bound (i := res.2.2.2) ?_
-          rw [hset]; exact set_self
-        · rename_i hng
-          simp only [Option.some.injEq] at e; subst e
-          refine ⟨hi, Ext.refl h, hc, ?_⟩
-          have h1 : (i == n) = false := by simpa using hne
-          simp only [Term.substBoundAt, h1, hng]
-          exact .bound ho
-    | @comb _ _ f x tf tx e1 rf rx =>
-      rw [ho] at e1; cases e1
-      simp only [if_true] at e
-      split at e
-      · rename_i r hl
-        simp only [Option.some.injEq] at e; subst e
-        exact ⟨hi, Ext.refl h, hc, hc.hit hi ho (.comb ho rf rx) hl⟩
-      · split at e
-        · cases e
-        · rename_i h1 c1 as1 f' e1
-          obtain ⟨i1, x1, k1, r1⟩ := sbHeap_sound ua tu hcl fuel h c as f n tf _ hi ru hc rf e1
-          simp only at i1 x1 k1 r1
-          split at e
-          · cases e
-          · rename_i h2 c2 as2 x' e2
-            obtain ⟨i2, x2, k2, r2⟩ := sbHeap_sound ua tu hcl fuel h1 c1 as1 x n tx _ i1
-              (ru.ext x1) k1 (rx.ext x1) e2
-            simp only at i2 x2 k2 r2
-            have x12 := x1.trans x2
-            have rs2 : Repr h2 s (.comb tf tx) := (Repr.comb ho rf rx).ext x12
-            split at e
-            · rename_i hsame
-              simp only [Bool.and_eq_true] at hsame
-              simp only [Option.some.injEq] at e; subst e
-              have ef : f' = f := sameId_eq i2 hsame.1
-              have ex : x' = x := sameId_eq i2 hsame.2
-              subst ef ex
-              have tf' : Term.substBoundAt tu n tf = tf := (r1.ext x2).functional (rf.ext x12)
-              have tx' : Term.substBoundAt tu n tx = tx := r2.functional (rx.ext x12)
-              have rr : Repr h2 s (Term.substBoundAt tu n (.comb tf tx)) := by
-                simp only [Term.substBoundAt, tf', tx']; exact rs2
-              exact ⟨i2, x12, k2.cons (x12 _ _ ho) rs2 rr, rr⟩
-            · split at e
-              · cases e
-              · rename_i h3 c3 as3 a ea0
-                simp only [Option.some.injEq] at e; subst e
-                obtain ⟨rest, _, hc', ea⟩ := allocNext_spec ea0
-                simp only at hc' ea
-                obtain ⟨hf, hset⟩ := alloc_spec ea
-                have x3 := alloc_ext ea
-                have i3 := alloc_inv i2 ea
-                have rr : Repr h3 a (Term.substBoundAt tu n (.comb tf tx)) := by
-                  simp only [Term.substBoundAt]
-                  refine .comb (i := a) ?_ ((r1.ext x2).ext x3) (r2.ext x3)
-                  rw [hset]; exact set_self
-                refine ⟨i3, x12.trans x3, ?_, rr⟩
-                rw [hc']
-                exact (k2.ext x3).cons ((x12.trans x3) _ _ ho) (rs2.ext x3) rr
-    | @abs _ _ nm T b tb e1 rb =>
-      rw [ho] at e1; cases e1
-      simp only [if_true] at e
-      split at e
-      · rename_i r hl
-        simp only [Option.some.injEq] at e; subst e
-        exact ⟨hi, Ext.refl h, hc, hc.hit hi ho (.abs ho rb) hl⟩
-      · split at e
-        · cases e
-        · rename_i h1 c1 as1 b' e1
-          obtain ⟨i1, x1, k1, r1⟩ := sbHeap_sound ua tu hcl fuel h c as b (n + 1) tb _ hi ru hc rb e1
-          simp only at i1 x1 k1 r1
-          have rs1 : Repr h1 s (.abs nm T tb) := (Repr.abs ho rb).ext x1
-          split at e
-          · rename_i hsame
-            simp only [Option.some.injEq] at e; subst e
-            have eb : b' = b := sameId_eq i1 hsame
-            subst eb
-            have tb' : Term.substBoundAt tu (n + 1) tb = tb := r1.functional (rb.ext x1)
-            have rr : Repr h1 s (Term.substBoundAt tu n (.abs nm T tb)) := by
-              simp only [Term.substBoundAt, tb']; exact rs1
-            exact ⟨i1, x1, k1.cons (x1 _ _ ho) rs1 rr, rr⟩
-          · split at e
-            · cases e
-            · rename_i h2 c2 as2 a ea0
-              simp only [Option.some.injEq] at e; subst e
-              obtain ⟨rest, _, hc', ea⟩ := allocNext_spec ea0
-              simp only at hc' ea
-              obtain ⟨hf, hset⟩ := alloc_spec ea
-              have x2 := alloc_ext ea
-              have i2 := alloc_inv i1 ea
-              have rr : Repr h2 a (Term.substBoundAt tu n (.abs nm T tb)) := by
-                simp only [Term.substBoundAt]
-                refine .abs (i := a) ?_ (r1.ext x2)
-                rw [hset]; exact set_self
-              refine ⟨i2, x1.trans x2, ?_, rr⟩
-              rw [hc']
-              exact (k1.ext x2).cons ((x1.trans x2) _ _ ho) (rs1.ext x2) rr
-
 theorem CacheOK.nil (tu : Term) (h : Heap) : CacheOK tu h [] := by
   intro id n r hl
   simp at hl
